@@ -2,7 +2,7 @@
   C07 — ORDER BY, LIMIT, OFFSET return a correctly sorted, correctly cut permutation.
   Property theorems only.  Code: lib/query/sort_value.go, lib/query/view.go (OrderBy, Offset, Limit).
 -/
-import Csvq.Lemmas.Sort
+import Csvq.Lemmas.SortSpec
 namespace Csvq.C07
 open Csvq
 
@@ -167,5 +167,99 @@ example : Compat (.str [65]) (.str [66, 67]) := by
 example : rowsLess [⟨.desc, .last⟩, ⟨.asc, .first⟩] [.str [66], .null] [.str [65], .dt 5] = true := by decide
 example : limitRows (fun (a b : Nat) => a == b) true 2 [1, 2, 2, 2, 3] = [1, 2, 2, 2] := by decide
 example : offsetRows (-3) [1, 2, 3] = [1, 2, 3] ∧ offsetRows 5 [1, 2, 3] = ([] : List Nat) := by decide
+
+/-! ## ORDER BY returns a sorted permutation, and sortedness + permutation determine the key sequence
+
+  `sort.Sort`'s algorithm is outside the model; what the property promises about its output is stated here
+  (`Sorted`, permutation), shown satisfiable by the reference `orderBy` for every table of the domain, and
+  shown to pin the output down completely up to the order inside ties: every sorted permutation carries the
+  key sequence of the reference.  The correspondence check applies exactly these two predicates to the
+  implementation's output. -/
+
+/-- the table is in the property's domain: one sort value per ORDER BY item in every row, and any two rows
+    column-wise comparable -/
+def TableInDomain (its : List OrdItem) (rows : List (List SortVal)) : Prop :=
+  (∀ r ∈ rows, r.length = its.length) ∧ (∀ r ∈ rows, ∀ s ∈ rows, RowsCompat r s)
+
+/-- no row precedes another that must sort before it -/
+def Sorted (its : List OrdItem) (rows : List (List SortVal)) : Prop := SortedBy (rowsLess its) rows
+
+theorem orderBy_perm (its : List OrdItem) (rows : List (List SortVal)) : (orderBy its rows).Perm rows :=
+  sortBy_perm _ _
+
+theorem orderBy_sorted (its : List OrdItem) (rows : List (List SortVal)) (h : TableInDomain its rows) :
+    Sorted its (orderBy its rows) := by
+  refine sortBy_sorted (rowsLess its) (· ∈ rows) ?_ ?_ rows (fun a ha => ha)
+  · intro a b ha hb hab
+    exact less_asymm its a b (h.1 a ha) (h.1 b hb) (h.2 a ha b hb) (h.2 b hb a ha) (h.2 a ha a ha) hab
+  · intro a b c ha hb hc h1 h2
+    exact not_less_trans its a b c (h.1 a ha) (h.1 b hb) (h.1 c hc) (h.2 b hb a ha) (h.2 c hc b hb) (h.2 c hc a ha) h1 h2
+
+/-- **Any two sorted permutations of a table carry the same sequence of sort keys** (they differ at most
+    in the order of rows whose keys are equal). -/
+theorem sorted_perm_keys_unique (its : List OrdItem) (rows out₁ out₂ : List (List SortVal))
+    (h : TableInDomain its rows) (p₁ : out₁.Perm rows) (p₂ : out₂.Perm rows)
+    (s₁ : Sorted its out₁) (s₂ : Sorted its out₂) :
+    out₁.map (keysOf its) = out₂.map (keysOf its) := by
+  have m : ∀ a, a ∈ out₁ → a ∈ rows := fun a ha => p₁.subset ha
+  refine sorted_perm_keys_eq (rowsLess its) (lexLt its) (keysOf its) out₁ out₂ (p₁.trans p₂.symm) ?_ ?_ s₁ s₂
+  · intro a ha b hb
+    exact rowsLess_eq_lex its a b (h.2 a (m a ha) b (m b hb))
+  · intro a ha b hb h1 h2
+    exact lexLt_incomp_eq its _ _ (keysOf_length its a (h.1 a (m a ha))) (keysOf_length its b (h.1 b (m b hb))) h1 h2
+
+/-- whatever `sort.Sort` does, if its output is a sorted permutation it agrees with the reference sort on
+    every key -/
+theorem sorted_perm_matches_reference (its : List OrdItem) (rows out : List (List SortVal))
+    (h : TableInDomain its rows) (p : out.Perm rows) (s : Sorted its out) :
+    out.map (keysOf its) = (orderBy its rows).map (keysOf its) :=
+  sorted_perm_keys_unique its rows out (orderBy its rows) h p (orderBy_perm its rows) s (orderBy_sorted its rows h)
+
+/-- consequently OFFSET and LIMIT cut the same keys out of every sorted permutation -/
+theorem offset_limit_keys_unique (its : List OrdItem) (rows out₁ out₂ : List (List SortVal))
+    (h : TableInDomain its rows) (p₁ : out₁.Perm rows) (p₂ : out₂.Perm rows)
+    (s₁ : Sorted its out₁) (s₂ : Sorted its out₂) (n : Int) (k : Nat) (eqv : List SortVal → List SortVal → Bool) :
+    (limitRows eqv false k (offsetRows n out₁)).map (keysOf its)
+      = (limitRows eqv false k (offsetRows n out₂)).map (keysOf its) := by
+  have e := sorted_perm_keys_unique its rows out₁ out₂ h p₁ p₂ s₁ s₂
+  rw [limit_spec, limit_spec, offset_spec, offset_spec, List.map_take, List.map_take, List.map_drop, List.map_drop, e]
+
+example : TableInDomain [⟨.asc, .last⟩] [[.dt 3], [.null], [.dt 1]] ∧
+    orderBy [⟨.asc, .last⟩] [[.dt 3], [.null], [.dt 1]] = [[.dt 1], [.dt 3], [.null]] := by
+  refine ⟨⟨by decide, ?_⟩, by decide⟩
+  intro r hr s hs
+  simp only [List.mem_cons, List.mem_nil_iff, or_false] at hr hs
+  rcases hr with rfl | rfl | rfl <;> rcases hs with rfl | rfl | rfl <;>
+    simp [RowsCompat, Compat]
+
+/-- `EquivalentTo` (the WITH TIES test) is equality of sort keys on the property's domain -/
+theorem equivalent_iff_keys_equal (its : List OrdItem) (r s : List SortVal)
+    (hr : r.length = its.length) (hs : s.length = its.length) (hc : RowsCompat r s) :
+    rowsEquiv r s = true ↔ keysOf its r = keysOf its s :=
+  rowsEquiv_iff_keys_eq its r s hr hs hc
+
+/-- **OFFSET, LIMIT and WITH TIES cut the same keys out of every sorted permutation**: the result of
+    `ORDER BY … LIMIT k WITH TIES OFFSET n` is determined, as a sequence of sort keys, by the table alone —
+    it does not depend on how `sort.Sort` ordered the rows inside a tie. -/
+theorem cut_keys_unique (its : List OrdItem) (rows out₁ out₂ : List (List SortVal))
+    (h : TableInDomain its rows) (p₁ : out₁.Perm rows) (p₂ : out₂.Perm rows)
+    (s₁ : Sorted its out₁) (s₂ : Sorted its out₂) (n : Int) (k : Nat) (wt : Bool) :
+    (limitRows rowsEquiv wt k (offsetRows n out₁)).map (keysOf its)
+      = (limitRows rowsEquiv wt k (offsetRows n out₂)).map (keysOf its) := by
+  have e := sorted_perm_keys_unique its rows out₁ out₂ h p₁ p₂ s₁ s₂
+  have eqv_ok : ∀ out : List (List SortVal), out.Perm rows → ∀ a ∈ offsetRows n out, ∀ b ∈ offsetRows n out,
+      rowsEquiv a b = decide (keysOf its a = keysOf its b) := by
+    intro out p a ha b hb
+    rw [offset_spec] at ha hb
+    have ma : a ∈ rows := p.subset (List.mem_of_mem_drop ha)
+    have mb : b ∈ rows := p.subset (List.mem_of_mem_drop hb)
+    have := rowsEquiv_iff_keys_eq its a b (h.1 a ma) (h.1 b mb) (h.2 a ma b mb)
+    cases hq : rowsEquiv a b
+    · have : ¬ keysOf its a = keysOf its b := fun e' => by rw [this.mpr e'] at hq; exact absurd hq (by simp)
+      simp [this]
+    · simp [this.mp hq]
+  rw [limitRows_map rowsEquiv (keysOf its) wt k _ (eqv_ok out₁ p₁),
+      limitRows_map rowsEquiv (keysOf its) wt k _ (eqv_ok out₂ p₂),
+      offset_spec, offset_spec, List.map_drop, List.map_drop, e]
 
 end Csvq.C07
